@@ -575,7 +575,11 @@ impl<E: Effect, R: CommandReceiver<E>, S: EventSender<E>> Worker<E, R, S> {
             }
             Err(error) => {
                 // Set the process result to the error and clear frames to complete it
-                if let Some(process) = self.executor.get_process_mut(awaiter) {
+                // A process that already finished keeps its result (it awaited the failed
+                // process in an earlier select and no longer waits for it).
+                if let Some(process) = self.executor.get_process_mut(awaiter)
+                    && process.result.is_none()
+                {
                     process.result = Some(Err(error));
                     process.frames.clear(); // Complete the process
                 }
